@@ -33,7 +33,7 @@ for d in sorted(glob.glob(os.path.join(ROOT, "seeded", "C??-*")), key=lambda x: 
 stable = "| id | round | file | change | when first run | final run |\n|---|---|---|---|---|---|\n" + "\n".join(rows)
 STATUS = {
  "C01": ("full (ledger and pipeline)", "`C01_refines_spec`, `C01_row`, `C01_registered`, `C01_affiliates_independent`, `C01_pipeline`"),
- "C02": ("full", "`C02_superficial_iff`, `C02_ratio`, `C02_automatic`, `C02_specified`, `C02_rule`, `C02_comparisons_match_source`, window/tolerance constants"),
+ "C02": ("full (the rule, and its hypotheses for every reachable state)", "`C02_superficial_iff`, `C02_ratio`, `C02_automatic`, `C02_specified`, `C02_rule`, `C02_every_reachable_sale`, `C02_comparisons_match_source`, window/tolerance constants"),
  "C03": ("full, ledger and pipeline (the property itself carries the \"not flagged over-applied\" condition)", "`C03_conservation`, `C03_pipeline`, `C03_adjustments_sum`, `C03_never_registered`"),
  "C04": ("full (ledger, pipeline, totals); output modes by oracle", "`C04_nonneg`, `C04_total`, `C04_registered`, `C04_only_user_errors`, `C04_row_rejected_iff`, `C04_sfl_error_iff`, `C04_pipeline`, `C04_rejected_not_in_totals`"),
  "C05": ("core full (ledger and pipeline); front ends sampled", "`C05_core_no_panic`, `C04_pipeline`"),
@@ -41,7 +41,7 @@ STATUS = {
  "C07": ("full", "`C07_row_perm`, `C07_column_perm`, `C07_file_partition`, `C07_header_case_pad`, `C07_unknown_columns`, `C07_sort_unique`, …"),
  "C08": ("full (pipeline + gains model)", "`C08_table_local`, `C08_other_rows_irrelevant`, `C08_error_local`, `C08_aggregate_additive`"),
  "C09": ("full for the modelled hash walks; rest sampled across processes", "`C09_deterministic`, `C09_summary_deterministic`, `C09_split_expansion`, `C09_cost_tables`, `C09_gains_tables`"),
- "C10": ("simple mode full (the generator `makeSummaryTxs` incl. rows carried over); annual mode **partial** (false for the code: F-10c)", "`C10_summary_reproduces_history`, `C10_summary_then_later_partial`, `C10_later_rows_partial`, `C10_later_rows_loss_only_partial`, `C10_no_conflict_is_far`, `C10_simple_rebuilds`, `C10_annual_sell`, `C10_annual_rebuilds`, `C10_summary_date_inclusive`"),
+ "C10": ("simple mode full (the generator `makeSummaryTxs` incl. rows carried over); annual mode **partial** (false for the code: F-10c)", "`C10_summary_reproduces_history`, `C10_annual_loss_year_counterexample`, `C10_summary_then_later_partial`, `C10_later_rows_partial`, `C10_later_rows_loss_only_partial`, `C10_no_conflict_is_far`, `C10_simple_rebuilds`, `C10_annual_sell`, `C10_annual_rebuilds`, `C10_summary_date_inclusive`"),
  "C11": ("full on the canonical domain", "`C11_roundtrip`, `C11_idempotent_bytes`, cell theorems, two `_counterexample`s"),
  "C12": ("full", "`C12_effective_eq_spec`, `C12_error_iff_none_exists`, `C12_never_later_at_most_7_days`, currency rules"),
  "C13": ("full", "`C13_transparent`, `C13_cache_stays_trustworthy`, download-count theorems"),
